@@ -772,7 +772,8 @@ def main(rep, tier):
     return rep.finish(
         "Structural clauses of the statement: sticky final states, clear-then-drive on every call, panic containment, side-effect-free "
         "error exits of the stream parser (the error repeats, no further output), identical classification of decode failures at the "
-        "three header sites, the total error-conversion table, conversions at non-final states; buffer bookkeeping (R3.10) and "
-        "arithmetic / slicing safety of the framing code (R3.11) by path-sensitive abstract interpretation in linear cursor forms.",
-        not_decided="panics from expect/unwrap on Option/Result values outside the modelled ones (parse_buffered's VarInt arithmetic; inventory in the evidence notes only), "
-                    "termination of each call (no hang) and chunking-invariance of outcomes")
+        "three header sites, the total error-conversion table, conversions at non-final states; buffer bookkeeping (R3.10), "
+        "arithmetic / slicing safety of the framing code (R3.11) and loop progress of both parsers (R3.12 / R3.13: no hang) by path-sensitive abstract "
+        "interpretation in linear cursor forms; necessary conditions of chunking-invariance (R3.9, R3.13 break discipline, R3.14).",
+        not_decided="panics from expect/unwrap on Option/Result values outside the modelled ones (parse_buffered's VarInt arithmetic; inventory in the evidence notes only) "
+                    "and chunking-invariance of outcomes beyond the listed necessary conditions")
